@@ -116,11 +116,15 @@ class CacheModel:
         self.init = init
         maps, queues, counters, budgets, weak, locks = [], [], [], [], [], []
         init_params = set(init.params) - {"self"}
+        from ..fa import FA
+        ini = FA(ck, init)
         for st in A.all_stmts(init.node):
             for (tg, v) in assign_pairs(st):
                 f = self_attr(tg)
                 if not f:
                     continue
+                # what the slot is initialised with, through any temporaries (`budget = mb * MB; self.x = budget`)
+                v = safe_expand(ini, v, st)
                 if isinstance(v, ast.Call):
                     d = (A.dotted(v.func) or "").split(".")[-1]
                     if d in ("dict", "OrderedDict"):
@@ -419,3 +423,27 @@ def value_sources(fa, ret, max_depth=4):
             seen.add((id(e), i))
             uniq.append((e, i))
     return uniq
+
+
+def slot_calls(fa, field, names):
+    """Calls of a method in `names` on the slot `self.<field>`: `self.f.clear()`, `t = self.f; t.clear()`, or `t.clear()` inside
+    `for t in (self.f, self.g, ...):` (one statement applied to several slots)."""
+    out = []
+    for c in fa.calls():
+        if A.call_attr(c) not in names or not isinstance(c.func, ast.Attribute):
+            continue
+        r = c.func.value
+        if self_attr(r, field):
+            out.append(c)
+            continue
+        if isinstance(r, ast.Name):
+            for i in fa.nodes(c):
+                ds = fa.df.reaching(i, r.id)
+                if len(ds) == 1 and ds[0].kind == "for" and isinstance(ds[0].value, (ast.Tuple, ast.List)) \
+                        and any(self_attr(e, field) for e in ds[0].value.elts):
+                    out.append(c)
+                    break
+                if len(ds) == 1 and ds[0].kind == "assign" and ds[0].value is not None and self_attr(ds[0].value, field):
+                    out.append(c)
+                    break
+    return out
